@@ -389,6 +389,8 @@ class ParRun:
             cb_calls.append(ft.number)
             if self.cb_name == "stop" and ft.number == 0:
                 study_.stop()
+            if self.cb_name == "stop-any":
+                study_.stop()
 
         sched = thx.Sched(ch, max_steps=100000)
         real_pool, real_wait = opt.ThreadPoolExecutor, opt.wait
@@ -570,6 +572,10 @@ def run(tier: str, replay: str | None = None) -> int:
                  (PAR_BEHAVIOURS[0], PAR_BEHAVIOURS[0], PAR_BEHAVIOURS[3])]:
         tasks.append(("par", prog, "()", "recorder", 1))
         tasks.append(("par", prog, "(ValueError,)", "stop", 1))
+        tasks.append(("par", prog, "()", "stop", 1))
+    for prog in [(PAR_BEHAVIOURS[0], PAR_BEHAVIOURS[5], PAR_BEHAVIOURS[0]), (PAR_BEHAVIOURS[5], PAR_BEHAVIOURS[0], PAR_BEHAVIOURS[0], PAR_BEHAVIOURS[0])]:
+        tasks.append(("par", prog, "()", "stop", 1))
+        tasks.append(("par", prog, "()", "stop-any", 1))
     pmap(ctx, task_fn, tasks)
     ctx.cov["traces_validated_against_impl"] = ctx.cov.get("evaluations", 0)
     ctx.assumptions += [
